@@ -26,6 +26,12 @@ UNUSED += [
     "parameters(g=9.81, c=0.1)\nstates(h=0.0, v=1.0)\ndh_dt = v\ndv_dt = -g - c*v*abs(v)\n",
     "parameters(a=1.0, b=2.0, k=0.5)\nstates(x=1.0, y=0.5)\ntau = a + b*x\nalpha = 1/tau\nzeta = alpha*2\nbeta = zeta + y\ndx_dt = -k*x*alpha\ndy_dt = -beta*y\nmon_unused = tau*beta\n",
 ]
+UNUSED += [
+    # used quantities whose names the printers rename (reserved words of Python / C) next to unused ones
+    "parameters(lambda=0.5, len=2.0, dead=3.0)\nstates(shape=1.0, y=2.0)\nkeep = lambda*shape\ngone = dead*y\ndshape_dt = -keep + len\ndy_dt = -y*len\n",
+    "parameters(long=0.5, short=2.0, dead=3.0)\nstates(double=1.0, y=2.0)\nkeep = long*double\ngone = dead*y\nddouble_dt = -keep + short\ndy_dt = -y*short\n",
+    "parameters(in=0.5, unused_is=2.0)\nstates(as=1.0, not_used=2.0)\ndas_dt = -in*as\ndnot_used_dt = 1\n",
+]
 SCHEMES = ["explicit_euler", "generalized_rush_larsen", "hybrid_rush_larsen"]
 
 
